@@ -327,7 +327,7 @@ theorem uponExisting_node {N : Type} (cfg : Cfg) (h : Nat) (A : Msg → Prop) (i
   exact nstep_of_ispec cfg h A i s m (processMsg cfg s m) hA hspec
 
 theorem ctrl_processMsg_node {N : Type} (cfg : Cfg) (h : Nat) (A : Msg → Prop) (i : N) (c : Ctrl) (m : Msg)
-    (hs : Shape h c) (hcap : 1 ≤ cfg.capacity) (hA : A m)
+    (hs : Shape h c) (hcap : 1 ≤ cfg.capacity) (hA : m.ident = cfg.ident → A m)
     (hdec : validateDecided cfg m = .ok () → m.ident = cfg.ident → m.height = h) :
     Shape h (c.processMsg cfg m).ct ∧
     NStep cfg h A i (instAt h c) (instAt h (c.processMsg cfg m).ct) (bcasts (c.processMsg cfg m).outs)
@@ -347,7 +347,7 @@ theorem ctrl_processMsg_node {N : Type} (cfg : Cfg) (h : Nat) (A : Msg → Prop)
     split
     · rename_i hdm
       by_cases hv : validateDecided cfg m = .ok ()
-      · exact uponDecided_node cfg h A i c m hs hcap hA hv (hdec hv hid') hdm
+      · exact uponDecided_node cfg h A i c m hs hcap (hA hid') hv (hdec hv hid') hdm
       · obtain ⟨r1, r2, r3⟩ := uponDecided_rejected cfg c m hv
         rw [r1]
         refine ⟨hs, .idle rfl (by rw [r2]; rfl) ?_⟩
@@ -367,7 +367,7 @@ theorem ctrl_processMsg_node {N : Type} (cfg : Cfg) (h : Nat) (A : Msg → Prop)
           have := hidle [.instanceNotFound]
           exact this
         · by_cases hmh : m.height = h
-          · exact uponExisting_node cfg h A i c m s hc hsh hmh hA hnd
+          · exact uponExisting_node cfg h A i c m s hc hsh hmh (hA hid') hnd
           · unfold uponExistingInstanceMsg
             rw [hc, findInstance_single_ne hsh hmh]
             exact hidle [.instanceNotFound]
